@@ -195,7 +195,7 @@ func (g *c19Gen) pickChannels(n int) [][2]string {
 
 func (g *c19Gen) genMeta() ([]byte, string) {
 	r := g.r
-	chs := g.pickChannels(r.Weighted([]int{8, 50, 30, 12}))
+	chs := g.pickChannels(r.Weighted([]int{6, 30, 40, 24}))
 	var items []string
 	for _, pc := range chs {
 		items = append(items, c19Entry(pc))
@@ -467,7 +467,7 @@ func (g *c19Gen) step() {
 		g.do(sc.op(o), "")
 	case 2: // create
 		md, cls := g.genMeta()
-		cfg := sc.NewConfig(uint64(1+r.Intn(7)), uint64(1+r.Intn(5)), 100*sec)
+		cfg := sc.NewConfig(uint64(1+r.Intn(7)), uint64(1+r.Intn(3)), 100*sec) // few challengers: bridges share them
 		cfg.Meta = md
 		if r.Chance(3) {
 			cfg.Challenger = "nope"
@@ -503,7 +503,7 @@ func (g *c19Gen) step() {
 				signer = e.User(uint64(1 + r.Intn(7))).Str
 			}
 		}
-		na := e.User(uint64(1 + r.Intn(6))).Str
+		na := e.User(uint64(1 + r.Intn(4))).Str
 		if r.Chance(3) {
 			na = "nope"
 		}
@@ -562,6 +562,42 @@ func c19Capture(seed uint64, id int, rep *Report) *L1Case {
 	return g.c
 }
 
+// two bridges of one challenger share a channel; both are handed over one after the other: the
+// second hand-over meets a channel the new challenger already administers and must still move
+// the remaining listed channels.  [order] permutes the second bridge's list.
+func c19Shared(seed uint64, id int, order int, rep *Report) *L1Case {
+	g := newC19Scenario(seed, id)
+	g.rep = rep
+	sc, e := g.sc, g.sc.Env
+	ch0, ch1, ch2 := c19Universe[0], c19Universe[1], c19Universe[2]
+	X, Y, P := e.User(1).Str, e.User(2).Str, e.User(4).Str
+	list := func(pcs ...[2]string) []byte {
+		var it []string
+		for _, pc := range pcs {
+			it = append(it, c19Entry(pc))
+		}
+		return []byte(`{"perm_channels":[` + strings.Join(it, ",") + `]}`)
+	}
+	for _, pc := range [][2]string{ch0, ch1, ch2} {
+		g.do(sc.op(L1Op{Kind: "chanset", Port: pc[0], Chan: pc[1], Has: true, Val: 1}), "")
+	}
+	c1 := sc.NewConfig(4, 1, 100*sec)
+	c1.Meta = list(ch0)
+	g.do(sc.Create(e.User(5).Str, c1), "valid")
+	c2 := sc.NewConfig(4, 1, 100*sec)
+	c2.Meta = list(ch2)
+	g.do(sc.Create(e.User(5).Str, c2), "valid")
+	shared := [][][2]string{{ch0, ch2}, {ch0, ch1, ch2}, {ch2, ch0, ch1}, {ch1, ch0, ch2}}[order%4]
+	g.do(sc.op(L1Op{Kind: "umeta", Sender: P, Bridge: 2, Meta: list(shared...)}), "valid")
+	sc.reg(X, Y)
+	g.do(sc.op(L1Op{Kind: "uchallenger", Sender: e.Auth, Bridge: 1, NewAddr: Y}), "")
+	g.do(sc.op(L1Op{Kind: "uchallenger", Sender: X, Bridge: 2, NewAddr: Y}), "")
+	// and back again through the other bridge first
+	g.do(sc.op(L1Op{Kind: "uchallenger", Sender: Y, Bridge: 2, NewAddr: X}), "")
+	g.do(sc.op(L1Op{Kind: "uchallenger", Sender: e.Auth, Bridge: 1, NewAddr: X}), "")
+	return g.c
+}
+
 func genC19(seed uint64, tier string, outdir string) *Report {
 	rep := NewReport("C19", seed, tier)
 	rep.Rule = "a case is one history of environment ops and create / update-metadata / update-challenger over up to four bridges on a fresh instance with the real hook; distinct by hash of the op list; non-trivial = at least one grant or handover succeeded and at least one hook-guarded message was refused"
@@ -572,8 +608,14 @@ func genC19(seed uint64, tier string, outdir string) *Report {
 	var texts []string
 	texts = append(texts, c19Capture(seed, 1, rep).Coq())
 	rep.Cases++
+	for k := 0; k < 4; k++ {
+		c := c19Shared(seed+uint64(k), 2+k, k, rep)
+		rep.Ops += len(c.Ops)
+		rep.CountCase(strings.Join(l1OpsHuman(c.Ops), "\n"), false)
+		texts = append(texts, c.Coq())
+	}
 	for k := 0; k < nCases; k++ {
-		g := newC19Scenario(seed*6151+uint64(k), k+2)
+		g := newC19Scenario(seed*6151+uint64(k), k+6)
 		g.rep = rep
 		for n := 0; n < nOps; n++ {
 			g.step()
